@@ -27,10 +27,15 @@ use std::sync::Arc;
 use std::time::Duration;
 use tokio::net::UdpSocket;
 use tokio::sync::mpsc;
+use rustrtc::transports::ice::conn::IceConn;
+use rustrtc::transports::ice::IceSocketWrapper;
 use vh::net::Endpoint;
 use vh::*;
 use webrtc_srtp::context::Context as RefCtx;
 use webrtc_srtp::protection_profile::ProtectionProfile as RefProfile;
+
+#[path = "c14_pc/mod.rs"]
+mod pc;
 
 // ---------------------------------------------------------------- operations
 #[derive(Clone, Copy, Debug, PartialEq, Eq, PartialOrd, Ord)]
@@ -42,11 +47,41 @@ enum WireIn {
     ProtTx(u8),
 }
 
+/// what the application hands to the raw `send(buf)`
+#[derive(Clone, Copy, Debug, PartialEq, Eq, PartialOrd, Ord)]
+enum Raw {
+    /// a marshalled RTP packet
+    Rtp,
+    /// 3 bytes
+    Short,
+    /// an RTCP PLI (12 bytes, FMT 1: as an RTP header it announces one CSRC that is not there)
+    Pli,
+    /// an RTCP SR-shaped buffer (28 bytes, count 0: a well-formed RTP packet with PT 72 + marker)
+    Sr,
+    /// an RTCP RR-shaped buffer with one report block (32 bytes, count 1: well-formed RTP with one CSRC)
+    Rr1,
+}
+fn raw_buf(shape: Raw, ssrc: u32, pid: u32) -> Vec<u8> {
+    let tail = |v: &mut Vec<u8>, n: usize| { let m = payload_of(pid); for i in 0..n { v.push(m[i % m.len()]); } };
+    match shape {
+        Raw::Rtp => rtp_packet(ssrc, pid).marshal().unwrap(),
+        Raw::Short => vec![0x80, 0x60, pid as u8],
+        Raw::Pli => { let mut v = vec![0x81, 206, 0, 2]; v.extend_from_slice(&(TS_BASE + pid).to_be_bytes()); v.extend_from_slice(&(PLI_TAG | pid).to_be_bytes()); v }
+        Raw::Sr => { let mut v = vec![0x80, 200, 0, 6]; v.extend_from_slice(&(TS_BASE + pid).to_be_bytes()); v.extend_from_slice(&ssrc.to_be_bytes()); tail(&mut v, 16); v }
+        Raw::Rr1 => { let mut v = vec![0x81, 201, 0, 7]; v.extend_from_slice(&(TS_BASE + pid).to_be_bytes()); v.extend_from_slice(&ssrc.to_be_bytes()); tail(&mut v, 20); v }
+    }
+}
+/// "the buffer parses as RTP", decided by an independent parser (webrtc-rs `rtp`)
+fn parses_as_rtp(buf: &[u8]) -> bool {
+    use webrtc_util::marshal::Unmarshal;
+    quiet(|| rtp::packet::Packet::unmarshal(&mut &buf[..]).ok()).is_some()
+}
+
 #[derive(Clone, Debug, PartialEq)]
 enum Op {
     InstallKeys(u8),
     TInstallKeys(u8),
-    Send(bool),
+    Send(Raw),
     SendRtp,
     SendRtcp,
     SyncBye,
@@ -68,7 +103,7 @@ fn op_term(o: &Op, pid: u32) -> String {
     match o {
         Op::InstallKeys(k) => format!("InstallKeys {}", k),
         Op::TInstallKeys(k) => format!("TInstallKeys {}", k),
-        Op::Send(wf) => format!("Send {} {}", pid, bool_term(*wf)),
+        Op::Send(shape) => format!("Send {} {}", pid, bool_term(parses_as_rtp(&raw_buf(*shape, SSRC_OUT, pid)))),
         Op::SendRtp => format!("SendRtp {}", pid),
         Op::SendRtcp => format!("SendRtcp {}", pid),
         Op::SyncBye => format!("SyncBye {}", pid),
@@ -138,6 +173,12 @@ fn quiet<T>(f: impl FnOnce() -> Option<T>) -> Option<T> {
     r
 }
 fn ref_decrypt(ks: u8, prof: Prof, rtcp: bool, d: &[u8]) -> Option<Vec<u8>> {
+    if rtcp {
+        // the reference returns an SRTCP packet whose E bit is clear WITHOUT checking its tag; such a packet is
+        // not protected at all (RFC 3711 3.4: E = 0 means the payload is in clear), so it never counts
+        let idx = if prof == Prof::Gcm { d.len().checked_sub(4) } else { d.len().checked_sub(14) };
+        match idx { Some(i) if i >= 8 && d[i] & 0x80 != 0 => {} _ => return None }
+    }
     quiet(|| {
         let mut c = ref_ctx(ks, true, prof);
         (if rtcp { c.decrypt_rtcp(d) } else { c.decrypt_rtp(d) }).ok().map(|b| b.to_vec())
@@ -216,6 +257,10 @@ struct World {
     ep_a: Endpoint,
     ep_b: Endpoint,
     sentinel: u64,
+    /// transport A over an RFC 4571 framed TCP stream: the IceConn and the de-framed records the peer end reads
+    tcp_conn: Arc<IceConn>,
+    tcp_rx: mpsc::UnboundedReceiver<Vec<u8>>,
+    _tcp_sock_tx: tokio::sync::watch::Sender<Option<IceSocketWrapper>>,
 }
 impl World {
     async fn new() -> World {
@@ -235,7 +280,27 @@ impl World {
         let aux = UdpSocket::bind("127.0.0.1:0").await.unwrap();
         let ep_a = Endpoint::new(cap_addr).await;
         let ep_b = Endpoint::new(cap_addr).await;
-        World { cap, cap_addr, cap_rx, aux, ep_a, ep_b, sentinel: 0 }
+        // TCP: the harness is the listening peer and de-frames what the transport writes
+        let listener = tokio::net::TcpListener::bind("127.0.0.1:0").await.unwrap();
+        let server_addr = listener.local_addr().unwrap();
+        let client = tokio::net::TcpStream::connect(server_addr).await.unwrap();
+        let (mut server, _) = listener.accept().await.unwrap();
+        let (rd, wr) = client.into_split();
+        let wrapper = IceSocketWrapper::TcpStream(Arc::new(tokio::sync::Mutex::new(rd)), Arc::new(tokio::sync::Mutex::new(wr)), server_addr);
+        let (tcp_sock_tx, sock_rx) = tokio::sync::watch::channel(Some(wrapper));
+        let tcp_conn = IceConn::new(sock_rx, server_addr, None);
+        let (ttx, tcp_rx) = mpsc::unbounded_channel();
+        tokio::spawn(async move {
+            use tokio::io::AsyncReadExt;
+            loop {
+                let mut l = [0u8; 2];
+                if server.read_exact(&mut l).await.is_err() { break; }
+                let mut f = vec![0u8; u16::from_be_bytes(l) as usize];
+                if server.read_exact(&mut f).await.is_err() { break; }
+                if ttx.send(f).is_err() { break; }
+            }
+        });
+        World { cap, cap_addr, cap_rx, aux, ep_a, ep_b, sentinel: 0, tcp_conn, tcp_rx, _tcp_sock_tx: tcp_sock_tx }
     }
     /// everything the two transports have written so far (a sentinel datagram from a third socket closes
     /// the window: loopback delivery to one socket is FIFO in send order)
@@ -251,6 +316,22 @@ impl World {
             if d == s { break; }
             if from == self.ep_a.addr { out.push((Sock::A, d)); }
             else if from == self.ep_b.addr { out.push((Sock::B, d)); }
+        }
+        out
+    }
+    /// everything transport A wrote on its TCP stream so far (records are ordered: a sentinel record written
+    /// through the same IceConn closes the window)
+    async fn drain_tcp(&mut self) -> Vec<(Sock, Vec<u8>)> {
+        self.sentinel += 1;
+        let mut s = vec![0u8, b'T'];
+        s.extend_from_slice(&self.sentinel.to_be_bytes());
+        self.tcp_conn.send(&s).await.expect("tcp sentinel");
+        let mut out = vec![];
+        loop {
+            let d = tokio::time::timeout(Duration::from_secs(5), self.tcp_rx.recv()).await
+                .expect("tcp stream: sentinel lost").expect("tcp reader ended");
+            if d == s { break; }
+            out.push((Sock::A, d));
         }
         out
     }
@@ -281,8 +362,8 @@ struct Rig {
     prof: Prof,
 }
 impl Rig {
-    fn new(w: &World, ra: bool, rb: bool, prof: Prof) -> Rig {
-        let a = Arc::new(RtpTransport::new(w.ep_a.conn.clone(), ra));
+    fn new(w: &World, ra: bool, rb: bool, prof: Prof, tcp: bool) -> Rig {
+        let a = Arc::new(RtpTransport::new(if tcp { w.tcp_conn.clone() } else { w.ep_a.conn.clone() }, ra));
         let b = Arc::new(RtpTransport::new(w.ep_b.conn.clone(), rb));
         w.ep_a.conn.set_rtp_receiver(a.clone());
         w.ep_b.conn.set_rtp_receiver(b.clone());
@@ -336,8 +417,8 @@ async fn apply(w: &World, rig: &Rig, prot: &mut Protectors, op: &Op, pid: u32, s
     match op {
         Op::InstallKeys(k) => { rig.a.start_srtp(rig.session(*k)); (None, None) }
         Op::TInstallKeys(k) => { rig.b.start_srtp(rig.session(*k)); (None, None) }
-        Op::Send(wf) => {
-            let buf = if *wf { rtp_packet(ssrc_out, pid).marshal().unwrap() } else { vec![0x80, 0x60, pid as u8] };
+        Op::Send(shape) => {
+            let buf = raw_buf(*shape, ssrc_out, pid);
             let r = rig.a.send(&buf).await;
             (Some(Submitted { clear: buf, injected: None, rtcp: false }), Some(r.is_ok()))
         }
@@ -401,12 +482,16 @@ fn classify(d: &[u8], sub: &[&Submitted], prof: Prof) -> (Option<i32>, i64) {
             }
         }
     }
+    // an application buffer that LOOKS like RTCP handed to the raw `send` is protected as SRTP: try both transforms
     for ks in KEYSETS {
-        if let Some(plain) = ref_decrypt(ks, prof, looks_rtcp, d) {
-            let pid = if looks_rtcp { pid_rtcp(&plain) } else { pid_rtp(&plain) };
-            let matches = sub.iter().any(|s| s.rtcp == looks_rtcp
-                && [Some(&s.clear), s.injected.as_ref()].into_iter().flatten().any(|cand| same_body(&plain, cand, if s.rtcp { 8 } else { 12 })));
-            return (Some(if matches { ks as i32 } else { -98 }), pid);
+        for as_rtcp in [looks_rtcp, !looks_rtcp] {
+            if let Some(plain) = ref_decrypt(ks, prof, as_rtcp, d) {
+                let pid = if as_rtcp { pid_rtcp(&plain) } else { pid_rtp(&plain) };
+                let matches = sub.iter().any(|s| s.rtcp == as_rtcp
+                    && [Some(&s.clear), s.injected.as_ref()].into_iter().flatten().any(|cand| same_body(&plain, cand, if s.rtcp { 8 } else { 12 })));
+                if !matches && std::env::var("C14_DEBUG").is_ok() { eprintln!("-98: ks={} as_rtcp={} d={:02x?} plain={:02x?}", ks, as_rtcp, d, &plain[..]); }
+                return (Some(if matches { ks as i32 } else { -98 }), pid);
+            }
         }
     }
     (Some(-99), -1)
@@ -414,6 +499,7 @@ fn classify(d: &[u8], sub: &[&Submitted], prof: Prof) -> (Option<i32>, i64) {
 
 struct CaseOut {
     obs: Vec<Vec<Obs>>,
+    raws: Vec<Vec<u8>>,
     fail: Option<String>,
     reordered: bool,
 }
@@ -421,20 +507,28 @@ struct CaseOut {
 fn set_fail(f: &mut Option<String>, s: String) { if f.is_none() { *f = Some(s); } }
 
 #[derive(Clone, Debug)]
-struct Spec { ra: bool, rb: bool, prof: Prof, udp: bool, ops: Vec<Op> }
+struct Spec { ra: bool, rb: bool, prof: Prof, udp: bool, tcp: bool, ops: Vec<Op> }
 
 async fn run_case(w: &mut World, c: &Spec) -> CaseOut {
-    let mut rig = Rig::new(w, c.ra, c.rb, c.prof);
+    let mut rig = Rig::new(w, c.ra, c.rb, c.prof, c.tcp);
     let mut prot = Protectors { map: BTreeMap::new(), prof: c.prof };
     let _ = w.drain().await;
-    let mut out = CaseOut { obs: vec![], fail: None, reordered: false };
+    if c.tcp { let _ = w.drain_tcp().await; }
+    let mut out = CaseOut { obs: vec![], raws: vec![], fail: None, reordered: false };
     // oracle state, from the operation list only
     let mut keys_a: Option<u8> = None;
     let mut keys_b: Option<u8> = None;
     for (i, op) in c.ops.iter().enumerate() {
         let pid = (i + 1) as u32;
-        let (sub, ret) = apply(w, &rig, &mut prot, op, pid, SSRC_OUT, SSRC_IN, c.udp).await;
-        let dgrams = w.drain().await;
+        let (sub, ret) = apply(w, &rig, &mut prot, op, pid, SSRC_OUT, SSRC_IN, c.udp && !c.tcp).await;
+        let mut dgrams = w.drain().await;
+        if c.tcp { let mut t = w.drain_tcp().await; t.append(&mut dgrams); dgrams = t; }
+        // the bytes of protected RTCP that will meet the PLAIN parser (not mandatory, no keys): the model predicts
+        // the outcome from them
+        out.raws.push(match (op, &sub) {
+            (Op::RecvRtcp(WireIn::ProtRx(_) | WireIn::ProtTx(_)), Some(s)) if !c.ra && keys_a.is_none() => s.injected.clone().unwrap_or_default(),
+            _ => vec![],
+        });
         let mut o: Vec<Obs> = vec![];
         // ---- sinks
         let eg: Vec<_> = rig.obs_a.egress.lock().drain(..).collect();
@@ -524,7 +618,7 @@ async fn run_case(w: &mut World, c: &Spec) -> CaseOut {
 struct RaceOut { fail: Option<String>, wires: usize, deliveries: usize }
 
 async fn run_race(w: &mut World, ra: bool, rb: bool, prof: Prof, tasks: Vec<Vec<Op>>) -> RaceOut {
-    let mut rig = Rig::new(w, ra, rb, prof);
+    let mut rig = Rig::new(w, ra, rb, prof, false);
     let _ = w.drain().await;
     let installed_a: BTreeSet<u8> = tasks.iter().flatten().filter_map(|o| if let Op::InstallKeys(k) = o { Some(*k) } else { None }).collect();
     let installed_b: BTreeSet<u8> = tasks.iter().flatten().filter_map(|o| if let Op::TInstallKeys(k) = o { Some(*k) } else { None }).collect();
@@ -561,7 +655,7 @@ async fn run_race(w: &mut World, ra: bool, rb: bool, prof: Prof, tasks: Vec<Vec<
                 match op {
                     Op::InstallKeys(k) => a.start_srtp(mk(k)),
                     Op::TInstallKeys(k) => b.start_srtp(mk(k)),
-                    Op::Send(wf) => { let buf = if wf { rtp_packet(ssrc_out, pid).marshal().unwrap() } else { vec![0x80, 0x60, pid as u8] }; let _ = a.send(&buf).await; }
+                    Op::Send(shape) => { let buf = raw_buf(shape, ssrc_out, pid); let _ = a.send(&buf).await; }
                     Op::SendRtp => { let _ = a.send_rtp(rtp_packet(ssrc_out, pid)).await; }
                     Op::SendRtcp => { let _ = a.send_rtcp(&[pli(ssrc_out, pid)]).await; }
                     Op::SyncBye => a.send_rtcp_sync(&[bye(ssrc_out, pid)]),
@@ -586,7 +680,7 @@ async fn run_race(w: &mut World, ra: bool, rb: bool, prof: Prof, tasks: Vec<Vec<
             continue;
         }
         let looks_rtcp = d.len() >= 2 && (192..=223).contains(&d[1]);
-        let ok = installed.iter().any(|ks| ref_decrypt(*ks, prof, looks_rtcp, d).is_some());
+        let ok = installed.iter().any(|ks| ref_decrypt(*ks, prof, looks_rtcp, d).is_some() || ref_decrypt(*ks, prof, !looks_rtcp, d).is_some());
         if !ok { set_fail(&mut fail, format!("racing: a datagram from {} (SRTP-mandatory) does not unprotect under any key set a task installed", who)); }
         if markers.iter().any(|m| contains(d, m)) { set_fail(&mut fail, format!("racing: a datagram from {} (SRTP-mandatory) contains submitted cleartext", who)); }
     }
@@ -610,7 +704,7 @@ async fn run_race(w: &mut World, ra: bool, rb: bool, prof: Prof, tasks: Vec<Vec<
 
 // ---------------------------------------------------------------- generators
 fn alphabet() -> Vec<Op> {
-    vec![Op::InstallKeys(1), Op::TInstallKeys(3), Op::Send(true), Op::SendRtp, Op::SendRtcp, Op::SyncBye,
+    vec![Op::InstallKeys(1), Op::TInstallKeys(3), Op::Send(Raw::Rtp), Op::SendRtp, Op::SendRtcp, Op::SyncBye,
          Op::RecvRtp(WireIn::Clear), Op::RecvRtcp(WireIn::Clear), Op::RecvRtp(WireIn::ProtRx(1)), Op::RecvRtcp(WireIn::ProtRx(1)),
          Op::RecvRtp(WireIn::ProtRx(2)), Op::SetBridge, Op::ClearBridge, Op::Close]
 }
@@ -625,7 +719,7 @@ fn random_op(r: &mut Rng, stats: &mut BTreeMap<String, u64>) -> Op {
     let op = match r.below(100) {
         0..=11 => Op::InstallKeys(*r.pick(&[1u8, 1, 1, 2])),
         12..=18 => Op::TInstallKeys(*r.pick(&[3u8, 3, 4, 1])),
-        19..=24 => Op::Send(r.chance(4, 5)),
+        19..=24 => Op::Send(*r.pick(&[Raw::Rtp, Raw::Rtp, Raw::Short, Raw::Pli, Raw::Sr, Raw::Rr1])),
         25..=33 => Op::SendRtp,
         34..=40 => Op::SendRtcp,
         41..=45 => Op::SyncBye,
@@ -645,37 +739,39 @@ fn corpus() -> Vec<Spec> {
     use WireIn::*;
     let mut v = vec![];
     // minimal witnesses first: each sender / receiver alone before keys, and right after keys, in the mandatory mode
-    for ops in [vec![Send(true)], vec![SendRtp], vec![SendRtcp], vec![SyncBye], vec![Close], vec![RecvRtp(Clear)], vec![RecvRtcp(Clear)],
-                vec![SetBridge, RecvRtp(Clear)], vec![InstallKeys(1), Send(true)], vec![InstallKeys(1), SendRtp], vec![InstallKeys(1), SendRtcp],
+    for ops in [vec![Send(Raw::Rtp)], vec![SendRtp], vec![SendRtcp], vec![SyncBye], vec![Close], vec![RecvRtp(Clear)], vec![RecvRtcp(Clear)],
+                vec![SetBridge, RecvRtp(Clear)], vec![InstallKeys(1), Send(Raw::Rtp)], vec![InstallKeys(1), SendRtp], vec![InstallKeys(1), SendRtcp],
                 vec![InstallKeys(1), SyncBye], vec![InstallKeys(1), Close], vec![InstallKeys(1), RecvRtp(Clear)], vec![InstallKeys(1), RecvRtcp(Clear)],
                 vec![InstallKeys(1), RecvRtp(ProtRx(2))], vec![InstallKeys(1), RecvRtcp(ProtRx(2))], vec![InstallKeys(1), RecvRtp(ProtRx(1))],
                 vec![InstallKeys(1), RecvRtcp(ProtRx(1))], vec![InstallKeys(1), SetBridge, RecvRtp(ProtRx(1))],
                 vec![InstallKeys(1), SetBridge, RecvRtp(Clear)], vec![InstallKeys(1), TInstallKeys(3), SetBridge, RecvRtp(ProtRx(1))]] {
-        v.push(Spec { ra: true, rb: true, prof: Prof::Sha80, udp: false, ops });
+        v.push(Spec { ra: true, rb: true, prof: Prof::Sha80, udp: false, tcp: false, ops });
     }
     // every sender before keys, every receiver before keys, then the same after keys, with the bridge both ways
-    let all = vec![Send(true), Send(false), SendRtp, SendRtcp, SyncBye, RecvRtp(Clear), RecvRtcp(Clear), RecvRtp(ProtRx(1)), RecvRtcp(ProtRx(1)),
+    let all = vec![Send(Raw::Rtp), Send(Raw::Short), Send(Raw::Pli), Send(Raw::Sr), Send(Raw::Rr1), SendRtp, SendRtcp, SyncBye, RecvRtp(Clear), RecvRtcp(Clear), RecvRtp(ProtRx(1)), RecvRtcp(ProtRx(1)),
                    SetBridge, RecvRtp(Clear), RecvRtp(ProtRx(1)), InstallKeys(1),
-                   Send(true), Send(false), SendRtp, SendRtcp, SyncBye, RecvRtp(Clear), RecvRtcp(Clear), RecvRtp(ProtRx(1)), RecvRtcp(ProtRx(1)),
+                   Send(Raw::Rtp), Send(Raw::Short), Send(Raw::Pli), Send(Raw::Sr), Send(Raw::Rr1), SendRtp, SendRtcp, SyncBye, RecvRtp(Clear), RecvRtcp(Clear), RecvRtp(ProtRx(1)), RecvRtcp(ProtRx(1)),
                    RecvRtp(ProtRx(2)), RecvRtcp(ProtRx(2)), RecvRtp(ProtTx(1)), RecvRtcp(ProtTx(1)),
                    TInstallKeys(3), RecvRtp(ProtRx(1)), RecvRtp(Clear), ClearBridge, RecvRtp(ProtRx(1)), RecvRtcp(ProtRx(1)),
                    InstallKeys(2), RecvRtp(ProtRx(1)), RecvRtp(ProtRx(2)), SendRtp, SendRtcp, Close, RecvRtp(ProtRx(2)), RecvRtcp(ProtRx(2)), SendRtp, SyncBye];
     for prof in [Prof::Sha80, Prof::Sha32, Prof::Gcm] {
         for (ra, rb) in [(true, true), (true, false), (false, true), (false, false)] {
             for udp in [false, true] {
-                v.push(Spec { ra, rb, prof, udp, ops: all.clone() });
+                v.push(Spec { ra, rb, prof, udp, tcp: false, ops: all.clone() });
             }
+            v.push(Spec { ra, rb, prof, udp: false, tcp: true, ops: all.clone() });
         }
     }
     // close before keys, keys on the target only, bridge to an unkeyed mandatory target
-    v.push(Spec { ra: true, rb: true, prof: Prof::Sha80, udp: false, ops: vec![Close, InstallKeys(1), SyncBye, RecvRtp(ProtRx(1))] });
-    v.push(Spec { ra: false, rb: true, prof: Prof::Sha80, udp: false, ops: vec![SetBridge, RecvRtp(Clear), TInstallKeys(3), RecvRtp(Clear), RecvRtp(ProtRx(1))] });
-    v.push(Spec { ra: true, rb: false, prof: Prof::Sha80, udp: false, ops: vec![SetBridge, RecvRtp(Clear), InstallKeys(1), RecvRtp(Clear), RecvRtp(ProtRx(1)), RecvRtp(ProtRx(2))] });
+    v.push(Spec { ra: true, rb: true, prof: Prof::Sha80, udp: false, tcp: false, ops: vec![Close, InstallKeys(1), SyncBye, RecvRtp(ProtRx(1))] });
+    v.push(Spec { ra: false, rb: true, prof: Prof::Sha80, udp: false, tcp: false, ops: vec![SetBridge, RecvRtp(Clear), TInstallKeys(3), RecvRtp(Clear), RecvRtp(ProtRx(1))] });
+    v.push(Spec { ra: true, rb: false, prof: Prof::Sha80, udp: false, tcp: false, ops: vec![SetBridge, RecvRtp(Clear), InstallKeys(1), RecvRtp(Clear), RecvRtp(ProtRx(1)), RecvRtp(ProtRx(2))] });
     v
 }
 
 fn spec_json(c: &Spec, obs: &[Vec<Obs>]) -> serde_json::Value {
-    json!({"required": c.ra, "target_required": c.rb, "profile": c.prof.name(), "inbound_path": if c.udp { "udp socket + IceConn::receive" } else { "RtpTransport::receive" },
+    json!({"required": c.ra, "target_required": c.rb, "profile": c.prof.name(), "inbound_path": if c.udp && !c.tcp { "udp socket + IceConn::receive" } else { "RtpTransport::receive" },
+           "socket": if c.tcp { "TCP stream (RFC 4571 framing)" } else { "UDP" },
            "ops": c.ops.iter().enumerate().map(|(i, o)| op_term(o, (i + 1) as u32)).collect::<Vec<_>>(),
            "observed": obs.iter().map(|x| x.iter().map(obs_term).collect::<Vec<_>>()).collect::<Vec<_>>()})
 }
@@ -683,11 +779,14 @@ fn spec_json(c: &Spec, obs: &[Vec<Obs>]) -> serde_json::Value {
 #[tokio::main(flavor = "multi_thread", worker_threads = 4)]
 async fn main() {
     let args = parse_args();
+    let only_pc = std::env::var("C14_ONLY_PC").is_ok();
     std::panic::set_hook(Box::new(|info| { if !QUIET.with(|q| q.get()) { eprintln!("c14 harness: {}", info); } }));
     let thorough = args.tier == "thorough";
     let mut out = Out::new(&args.out);
     let mut r = Rng::new(args.seed);
     let mut w = World::new().await;
+    // PeerConnection-level scenarios run concurrently with everything else (they are mostly waiting for timers)
+    let pc_handle = tokio::spawn(pc::run_all(thorough));
     let mut specs: Vec<(String, Spec)> = vec![];
     for c in corpus() { specs.push(("corpus".into(), c)); }
     // exhaustive sequences over the property's alphabet, every mode
@@ -706,7 +805,7 @@ async fn main() {
                 let has_keys = ops.iter().any(|o| matches!(o, Op::InstallKeys(_)));
                 let has_bridge = ops.iter().any(|o| matches!(o, Op::SetBridge));
                 let keep = depth <= full_depth || if thorough { has_keys && has_bridge } else { has_keys || rb != ra };
-                if keep { specs.push(("exhaustive".into(), Spec { ra, rb, prof: Prof::Sha80, udp: false, ops })); }
+                if keep { specs.push(("exhaustive".into(), Spec { ra, rb, prof: Prof::Sha80, udp: false, tcp: false, ops })); }
                 let mut k = 0;
                 loop {
                     if k == depth { break; }
@@ -727,11 +826,12 @@ async fn main() {
         let ops: Vec<Op> = (0..len).map(|_| random_op(&mut r, &mut op_stats)).collect();
         *len_stats.entry(len).or_default() += 1;
         let prof = *r.pick(&[Prof::Sha80, Prof::Sha80, Prof::Gcm, Prof::Sha32]);
-        specs.push(("random".into(), Spec { ra: r.chance(3, 4), rb: r.chance(2, 3), prof, udp: i % 3 == 0, ops }));
+        specs.push(("random".into(), Spec { ra: r.chance(3, 4), rb: r.chance(2, 3), prof, udp: i % 3 == 0, tcp: i % 4 == 1, ops }));
     }
     let mut wire_total = 0u64;
     let mut deliver_total = 0u64;
     let mut retried = 0u64;
+    if only_pc { specs.clear(); }
     for (kind, c) in specs {
         let mut res = run_case(&mut w, &c).await;
         let mut tries = 0;
@@ -740,15 +840,16 @@ async fn main() {
         let nd = res.obs.iter().flatten().filter(|o| matches!(o, Obs::D(..))).count();
         wire_total += nw as u64;
         deliver_total += nd as u64;
-        let term = format!("mkCase {} {} {} {}", bool_term(c.ra), bool_term(c.rb),
+        let term = format!("mkCase {} true {} {} {} {} {}", bool_term(!c.tcp), bool_term(c.ra), bool_term(c.rb),
             list_term(&c.ops.iter().enumerate().map(|(i, o)| op_term(o, (i + 1) as u32)).collect::<Vec<_>>()),
+            list_term(&res.raws.iter().map(|b| bytes_term(b)).collect::<Vec<_>>()),
             list_term(&res.obs.iter().map(|x| list_term(&x.iter().map(obs_term).collect::<Vec<_>>())).collect::<Vec<_>>()));
         // the model is profile- and path-agnostic: the same term for every profile / inbound path
-        let key = format!("{}|{}|{:?}|{}|{:?}", c.ra, c.rb, c.prof, c.udp, c.ops);
+        let key = format!("{}|{}|{:?}|{}|{}|{:?}", c.ra, c.rb, c.prof, c.udp, c.tcp, c.ops);
         out.push(Case { term, desc: spec_json(&c, &res.obs), oracle_fail: res.fail, known: None, nontrivial: nw + nd > 0, key, kind });
     }
     // racing: the same operations from 4 tasks on a multi-threaded runtime
-    let nrace = if thorough { 1500 } else { 250 };
+    let nrace = if only_pc { 0 } else if thorough { 1500 } else { 250 };
     let mut race_wires = 0u64;
     let mut race_deliveries = 0u64;
     for i in 0..nrace {
@@ -772,7 +873,15 @@ async fn main() {
             oracle_fail: res.fail, known: None, nontrivial: res.wires + res.deliveries > 0,
             key: format!("race|{}|{}|{:?}|{:?}", ra, rb, prof, tasks), kind: "racing".into() });
     }
-    out.finish(json!({"generator": {"alphabet": alpha.iter().map(|o| format!("{:?}", o)).collect::<Vec<_>>(),
+    let mut pc_media = 0u64;
+    let mut pc_summary = vec![];
+    for (i, (sc, res)) in pc_handle.await.expect("PeerConnection scenarios").into_iter().enumerate() {
+        pc_media += res.media_datagrams as u64;
+        pc_summary.push(json!({"scenario": sc.name, "media_datagrams": res.media_datagrams, "counts": res.desc.get("counts")}));
+        out.push(Case { term: "-".into(), desc: res.desc, oracle_fail: res.fail, known: None, nontrivial: res.media_datagrams > 0 || sc.fault != pc::Fault::None,
+            key: format!("pc|{}|{}", sc.name, i), kind: "peer_connection".into() });
+    }
+    out.finish(json!({"generator": {"peer_connection_scenarios": pc_summary, "peer_connection_media_datagrams": pc_media,"alphabet": alpha.iter().map(|o| format!("{:?}", o)).collect::<Vec<_>>(),
         "exhaustive_depth_all_modes": full_depth, "exhaustive_depth_required_modes": deep_depth,
         "random_op_kinds": op_stats, "random_case_lengths": len_stats,
         "datagrams_captured": wire_total, "deliveries_observed": deliver_total,
